@@ -68,6 +68,44 @@ class VerifyAttrs(object):
         for ns in node.namespaces:
             self.verify_namespace_attrs(ns)
 
+    def check_attr_forms(self, attrs, where):
+        """Diagnose attribute values of the wrong form.
+
+        Some attributes need a value, +attr(value), which must be text;
+        others are flags or name a variable.  Without this check a
+        value of the wrong form fails later with an AttributeError or
+        TypeError far from the declaration.
+
+        Args:
+            attrs - declast.Declaration.attrs
+            where - text describing the declaration for the message.
+        """
+        for attr in ["implied", "intent", "name"]:
+            # Must have a text value.
+            value = attrs[attr]
+            if value is not None and not isinstance(value, str):
+                raise RuntimeError(
+                    "'{}' attribute must have a value of the form "
+                    "+{}(value) for {}".format(attr, attr, where)
+                )
+        for attr in ["deref", "dimension", "free_pattern", "owner",
+                     "len", "len_trim", "size"]:
+            # A flag or a text value, but no number.
+            value = attrs[attr]
+            if attr == "len" and isinstance(value, int):
+                # +len=30
+                continue
+            if value is not None and value is not True \
+               and not isinstance(value, str):
+                raise RuntimeError(
+                    "'{}' attribute must have a value of the form "
+                    "+{}(value) for {}".format(attr, attr, where)
+                )
+        if attrs["pass"] is not None and attrs["pass"] is not True:
+            raise RuntimeError(
+                "'pass' attribute may not have a value for {}".format(where)
+            )
+
     def check_var_attrs(self, cls, node):
         """Check attributes for variables.
         This includes struct and class members.
@@ -88,7 +126,15 @@ class VerifyAttrs(object):
                     )
                 )
 
+        self.check_attr_forms(
+            attrs, "variable '{}' at line {}".format(
+                ast.get_name(use_attr=False), node.linenumber))
+
         is_ptr = ast.is_indirect()
+        if attrs["dimension"] is True:
+            raise RuntimeError(
+                "dimension attribute must have a value."
+            )
         if attrs["dimension"] and not is_ptr:
             raise RuntimeError(
                 "dimension attribute can only be "
@@ -128,6 +174,9 @@ class VerifyAttrs(object):
                         attr, node.ast.name, node.linenumber
                     )
                 )
+        self.check_attr_forms(
+            ast.attrs, "function '{}' at line {}".format(
+                ast.get_name(use_attr=False), node.linenumber))
         if ast.get_subprogram() == "function":
             ast.metaattrs["intent"] = "result"
         self.check_common_attrs(node.ast)
@@ -243,7 +292,7 @@ class VerifyAttrs(object):
         # dimension
         dimension = attrs["dimension"]
         rank = attrs["rank"]
-        if rank:
+        if rank or rank == "":
             if rank is True:
                 raise RuntimeError(
                     "'rank' attribute must have an integer value"
@@ -360,6 +409,17 @@ class VerifyAttrs(object):
                     )
                 )
 
+        self.check_attr_forms(
+            attrs, "argument '{}'".format(arg.get_name(use_attr=False)))
+        if attrs["len"] is not None and attrs["len"] is not True \
+           and not isinstance(attrs["len"], str):
+            # Names a variable for an argument, unlike a function result.
+            raise RuntimeError(
+                "'len' attribute must have a value of the form "
+                "+len(name) for argument '{}'".format(
+                    arg.get_name(use_attr=False))
+            )
+
         arg_typemap = arg.typemap
         if arg_typemap is None:
             # Sanity check to make sure arg_typemap exists
@@ -373,6 +433,11 @@ class VerifyAttrs(object):
         self.check_common_attrs(arg)
 
         is_ptr = arg.is_indirect()
+
+        if attrs["pass"] and arg_typemap.f_class is None:
+            raise RuntimeError(
+                "pass attribute can only be used on a struct or class argument"
+            )
 
         # assumedtype
         assumedtype = attrs["assumedtype"]
